@@ -75,6 +75,8 @@ def main(argv=None):
     ap.add_argument("--ncases", type=int, default=None)
     ap.add_argument("--replay", default=None)
     ap.add_argument("--only", default=None, help="restrict to one workload")
+    ap.add_argument("--start", type=int, default=None,
+                    help="resume at this case index (after a crash of the library)")
     args = ap.parse_args(argv)
 
     faulthandler.enable()
@@ -100,13 +102,34 @@ def main(argv=None):
         ncases = args.ncases or mod.NCASES[args.tier]
         budget = args.budget or mod.BUDGET[args.tier]
         done = 0
-        for idx in range(args.shard, ncases, args.nshards):
+        first = args.shard if args.start is None else args.start
+        last_ckpt = time.time()
+
+        def checkpoint(path):
+            o = rec.dump()
+            o["case_descs"] = rec.case_descs
+            o["shard"] = args.shard
+            o["notes"] = dict(o["notes"], cases_attempted=done)
+            with open(path + ".tmp", "w") as f:
+                json.dump(o, f)
+            os.replace(path + ".tmp", path)
+
+        for idx in range(first, ncases, args.nshards):
             if time.time() - t0 > budget:
                 rec.note("budget_exhausted")
                 break
             name, fn = pick_workload(workloads, idx)
+            # where we are, for the parent, should the library take the
+            # process down (SIGSEGV / abort inside a JIT kernel)
+            with open(args.out + ".cur.tmp", "w") as f:
+                f.write(json.dumps({"workload": name, "idx": idx, "seed": args.seed,
+                                    "tier": args.tier, "prop": mod.PROP}))
+            os.replace(args.out + ".cur.tmp", args.out + ".cur")
             run_case(mod, rec, name, fn, args.seed, idx, args.tier)
             done += 1
+            if time.time() - last_ckpt > 5.0:
+                checkpoint(args.out + ".part")
+                last_ckpt = time.time()
         rec.note("cases_attempted", done)
 
     out = rec.dump()
